@@ -895,50 +895,26 @@ func c14LookaheadGuards(c *Ctx) {
 			if !ok {
 				return
 			}
-			// minimum run scanned on success
+			// minimum run scanned after the look-ahead: the largest constant count handed to a scanner method that
+			// advances the position and can run after this call (the digits scanner of `0x`)
 			d := int64(0)
-			for _, ref := range *call.Referrers() {
-				bo, ok := ref.(*ssa.BinOp)
-				if !ok {
-					continue
+			instrs(f, func(_ *ssa.BasicBlock, _ int, x ssa.Instruction) {
+				cl, ok := x.(*ssa.Call)
+				if !ok || x == in {
+					return
 				}
-				for _, r2 := range *bo.Referrers() {
-					iff, ok := r2.(*ssa.If)
-					if !ok {
-						continue
-					}
-					var succ *ssa.BasicBlock
-					if kk, isK := constIntArg(bo.Y); isK && bo.X == ssa.Value(call) {
-						switch {
-						case bo.Op == token.GEQ && kk == 0, bo.Op == token.GTR && kk == -1, bo.Op == token.NEQ && kk == -1:
-							succ = iff.Block().Succs[0]
-						case bo.Op == token.LSS && kk == 0, bo.Op == token.EQL && kk == -1, bo.Op == token.LEQ && kk == -1:
-							succ = iff.Block().Succs[1]
-						}
-					}
-					if succ == nil || len(succ.Preds) != 1 {
-						continue
-					}
-					for _, sb := range f.Blocks {
-						if sb != succ && !succ.Dominates(sb) {
-							continue
-						}
-						for _, x := range sb.Instrs {
-							cl, ok := x.(*ssa.Call)
-							if !ok {
-								continue
-							}
-							cal := calleeOf(cl)
-							if cal == nil || !pw[cal] || len(cl.Call.Args) < 2 {
-								continue
-							}
-							if m, isK := constIntArg(cl.Call.Args[1]); isK && m > d && isIntType(cl.Call.Args[1].Type()) {
-								d = m
-							}
-						}
-					}
+				cal := calleeOf(cl)
+				if cal == nil || !pw[cal] || len(cl.Call.Args) < 2 || peekKind(cal) != "" {
+					return
 				}
-			}
+				m, isK := constIntArg(cl.Call.Args[1])
+				if !isK || !isIntType(cl.Call.Args[1].Type()) || m <= d {
+					return
+				}
+				if pathExists(f, in, func(y ssa.Instruction) bool { return y == x }, nil, nil) {
+					d = m
+				}
+			})
 			// dominating remaining-length guards
 			for dd := b; dd != nil; dd = dd.Idom() {
 				id := dd.Idom()
